@@ -84,3 +84,12 @@ Theorem C10_write_mem_new_from_source : forall a (data : list Z), zlen data + 8 
   unwrap (write_mem_new a data) = omap (fun _ => (a, data)) (r_unwrap (src_write_mem_new (zlen data))).
 Proof. exact write_mem_new_from_source. Qed.
 Print Assumptions C10_write_mem_new_from_source.
+
+(* END TO END about the translated code: iterating the function translated from ReadMemChunks::next, started from the
+   state translated from ReadMem::chunks, yields - for every address, 16-bit length and budget above the acknowledge
+   header - a finite list that partitions the request (the same [read_partition] as C10_read_partition). *)
+Theorem C10_read_partition_of_source : forall a n b,
+  0 <= a < 2 ^ 64 -> 0 <= n < 2 ^ 16 -> a + n <= 2 ^ 64 -> ACK_HEADER_LENGTH < b < 2 ^ 64 ->
+  exists cs, src_read_chunks a n b = Ok cs /\ read_partition a n b cs.
+Proof. exact read_partition_of_source. Qed.
+Print Assumptions C10_read_partition_of_source.
